@@ -778,14 +778,15 @@ Proof.
     + inversion H; subst. split; [exact Q1|]. split; [exact Q3|]. split; [intros _; split; [exact Q2|exact En]|]. split; [auto|]. intros _. exact Q2.
 Qed.
 
-Lemma fill_same : forall fuel dl w,
-  same_ghost w (fst (fill_packet_reader fuel dl w)) /\ s_ob (w_sess (fst (fill_packet_reader fuel dl w))) = s_ob (w_sess w).
+Lemma fill_go_same : forall fuel y dl w,
+  same_ghost w (fst (fill_go fuel y dl w)) /\ s_ob (w_sess (fst (fill_go fuel y dl w))) = s_ob (w_sess w).
 Proof.
-  induction fuel as [|f IH]; intros dl w; cbn [fill_packet_reader]; [split; [apply same_ghost_refl|reflexivity]|].
+  induction fuel as [|f IH]; intros y dl w; cbn [fill_go]; [split; [apply same_ghost_refl|reflexivity]|].
   destruct (packet_available _); [split; [apply same_ghost_refl|reflexivity]|].
   destruct (receive_buffer (s_reader (w_sess w))) as [r' ow]. destruct ow as [win|]; [|split; [repeat split|reflexivity]].
   set (w0 := upd_sess w (set_reader (w_sess w) r')).
   destruct (N.eqb win 0); [split; [repeat split|reflexivity]|].
+  destruct (timer_fired y dl w0); [split; [repeat split|reflexivity]|].
   destruct (io_read win dl w0) as [w1 r] eqn:Ei.
   pose proof (io_read_ghost win dl w0) as Hg. rewrite Ei in Hg. cbn [fst] in Hg.
   pose proof (io_read_sess win dl w0) as [Hs _]. rewrite Ei in Hs. cbn [fst] in Hs.
@@ -793,10 +794,13 @@ Proof.
   assert (O1 : s_ob (w_sess w1) = s_ob (w_sess w)) by (rewrite Hs; reflexivity).
   destruct r as [d| | |]; cbn [fst]; try (split; [exact G0|exact O1]).
   destruct d as [|x t]; [split; [exact G0|exact O1]|].
-  match goal with |- context [fill_packet_reader f dl ?x] => destruct (IH dl x) as [A B]; split; [eapply same_ghost_trans; [|exact A]|rewrite B] end.
+  match goal with |- context [fill_go f ?yy dl ?x] => destruct (IH yy dl x) as [A B]; split; [eapply same_ghost_trans; [|exact A]|rewrite B] end.
   - destruct G0 as [a [b c]]. repeat split; assumption.
   - cbn [w_sess upd_sess set_reader s_ob]. exact O1.
 Qed.
+Lemma fill_same : forall fuel dl w,
+  same_ghost w (fst (fill_packet_reader fuel dl w)) /\ s_ob (w_sess (fst (fill_packet_reader fuel dl w))) = s_ob (w_sess w).
+Proof. intros. apply fill_go_same. Qed.
 
 Theorem fill_pres : forall fuel dl w,
   (w_live w = true -> npart (s_ob (w_sess w)) = 0%nat) -> Pres w (fst (fill_packet_reader fuel dl w)).
@@ -824,15 +828,16 @@ Qed.
 
 Definition NAl (w : world) : Prop := w_live w = true -> NA w.
 
-Lemma fill_na : forall fuel dl w w' fr, fill_packet_reader fuel dl w = (w', fr) ->
+Lemma fill_go_na : forall fuel y dl w w' fr, fill_go fuel y dl w = (w', fr) ->
   match fr with FillOk | FillFuel | FillErr _ => True | _ => NA w' end.
 Proof.
-  induction fuel as [|f IH]; intros dl w w' fr H; cbn [fill_packet_reader] in H; [inversion H; exact I|].
+  induction fuel as [|f IH]; intros y dl w w' fr H; cbn [fill_go] in H; [inversion H; exact I|].
   destruct (packet_available _); [inversion H; exact I|].
   destruct (receive_buffer (s_reader (w_sess w))) as [r' ow] eqn:Er. destruct ow as [win|]; [|inversion H; exact I].
   destruct (N.eqb_spec win 0) as [Ew|Ew]; [inversion H; exact I|].
   pose proof (receive_window_na _ _ _ Er Ew) as Hna.
   set (w0 := upd_sess w (set_reader (w_sess w) r')) in *.
+  destruct (timer_fired y dl w0); [inversion H; subst; unfold NA; exact Hna|].
   destruct (io_read win dl w0) as [w1 r] eqn:Ei.
   pose proof (io_read_sess win dl w0) as [Hs _]. rewrite Ei in Hs. cbn [fst] in Hs.
   destruct r as [d| | |].
@@ -841,6 +846,9 @@ Proof.
   - inversion H; subst. unfold NA. rewrite Hs. exact Hna.
   - inversion H; subst. unfold NA. rewrite Hs. exact Hna.
 Qed.
+Lemma fill_na : forall fuel dl w w' fr, fill_packet_reader fuel dl w = (w', fr) ->
+  match fr with FillOk | FillFuel | FillErr _ => True | _ => NA w' end.
+Proof. intros fuel dl w w' fr H. exact (fill_go_na fuel false dl w w' fr H). Qed.
 
 Theorem wait_pres : forall fuel w w' r,
   WInv (w_sess w) -> wait_for_progress fuel w = (w', r) ->
